@@ -1,3 +1,167 @@
 import Nv.OracleIO
-/-! oracle_c20 — stub (model not built yet): answers `bad-op` to every line. -/
-def main : IO Unit := Nv.oracleMain (fun (_ : Unit) _ => ((), "bad-op")) ()
+import Nv.Model.C20
+import Nv.Gen.C20
+/-!
+oracle_c20 — line protocol (every line is self-contained, there is no state):
+  `<ty>.dec t:<tok>`      ty ∈ i64 u64 utime ntime stamp dur byte     → `ok <v>` | `err:<kind>` | `panic`
+  `<ty>.rt <v>`           marshal then unmarshal                        → `enc=t:<tok> dec=<as above>`
+  `hex.dec <16|32> <s|u> t:<tok>`, `hex.rt <16|32> <s|u> <v>`
+  `b64.dec t:<tok>` → `ok x:<hex>` | `err:other`;  `b64.rt x:<hex>` → `enc=t:<tok> dec=ok x:<hex>`
+  `sql.scan <nano|unix|stamp|t2u> <i32|u32|i64|u64|int|uint|time|other> <v>` → `ok <ts>`
+  `sql.rt <nano|unix|stamp|t2u> <v>` → `val=<v> scan=ok <v>`
+Tokens are escaped: bytes outside 0x21…0x7E and `%` are written `%XX`.
+The configuration is the one regenerated from the source (`Nv.Gen.C20.cfg`).
+-/
+open Nv Nv.C20
+
+def hexDigit? (c : Char) : Option Nat :=
+  if '0' ≤ c ∧ c ≤ '9' then some (c.toNat - 48)
+  else if 'a' ≤ c ∧ c ≤ 'f' then some (c.toNat - 87)
+  else if 'A' ≤ c ∧ c ≤ 'F' then some (c.toNat - 55)
+  else none
+
+def unescape : List Char → Option Bytes
+  | [] => some []
+  | '%' :: a :: b :: rest =>
+    match hexDigit? a, hexDigit? b, unescape rest with
+    | some x, some y, some r => some ((x * 16 + y) :: r)
+    | _, _, _ => none
+  | '%' :: _ => none
+  | c :: rest =>
+    if 33 ≤ c.toNat ∧ c.toNat ≤ 126 then (unescape rest).map (c.toNat :: ·) else none
+
+def hexChar (n : Nat) : Char := Char.ofNat (if n < 10 then 48 + n else 55 + n)
+
+def escape (b : Bytes) : String :=
+  String.ofList (b.flatMap fun c =>
+    if 33 ≤ c ∧ c ≤ 126 ∧ c ≠ 37 then [Char.ofNat c] else ['%', hexChar (c / 16 % 16), hexChar (c % 16)])
+
+def tok? (s : String) : Option Bytes :=
+  match s.toList with
+  | 't' :: ':' :: rest => unescape rest
+  | _ => none
+
+def showTok (b : Bytes) : String := "t:" ++ escape b
+
+def hexBytes? : List Char → Option Bytes
+  | [] => some []
+  | a :: b :: rest =>
+    match hexDigit? a, hexDigit? b, hexBytes? rest with
+    | some x, some y, some r => some ((x * 16 + y) :: r)
+    | _, _, _ => none
+  | _ => none
+
+def xbytes? (s : String) : Option Bytes :=
+  match s.toList with
+  | 'x' :: ':' :: rest => hexBytes? rest
+  | _ => none
+
+def lowHex (n : Nat) : Char := Char.ofNat (if n < 10 then 48 + n else 87 + n)
+def showX (b : Bytes) : String := "x:" ++ String.ofList (b.flatMap fun c => [lowHex (c / 16 % 16), lowHex (c % 16)])
+
+def showErr : Err → String
+  | .invalid => "err:invalid" | .syntax => "err:syntax" | .range => "err:range" | .other => "err:other"
+
+def showRes {α} (f : α → String) : Res α → String
+  | .ok v => "ok " ++ f v
+  | .err e => showErr e
+  | .panic => "panic"
+
+def showInt (i : Int) : String := toString i
+def showNats (l : List Nat) : String := showList toString l
+
+def inI64 (v : Int) : Bool := -(2 ^ 63 : Int) ≤ v && v < 2 ^ 63
+
+def wrapOf (ty : String) : Option Wrap :=
+  let c := Nv.Gen.C20.cfg
+  if ty == "i64" then some c.i64 else if ty == "u64" then some c.u64
+  else if ty == "utime" then some c.unixTime else if ty == "ntime" then some c.nanoTime
+  else if ty == "stamp" then some c.stamp else none
+
+def parseNatList (s : String) : Option (List Nat) :=
+  if s == "-" then some [] else (s.splitOn ",").mapM (·.toNat?)
+
+def sqlVal? (ty v : String) : Option SqlVal :=
+  if ty == "i32" then v.toInt?.map .i32 else if ty == "u32" then v.toNat?.map .u32
+  else if ty == "i64" then v.toInt?.map .i64 else if ty == "u64" then v.toNat?.map .u64
+  else if ty == "int" then v.toInt?.map .int else if ty == "uint" then v.toNat?.map .uint
+  else if ty == "time" then v.toInt?.map .time else if ty == "other" then some .other
+  else none
+
+def answer (line : String) : String :=
+  let cfg := Nv.Gen.C20.cfg
+  match words line with
+  | [op, a] =>
+    if op == "dur.dec" then
+      match tok? a with | some b => showRes showInt (decodeDur cfg.dur b) | none => "bad-op"
+    else if op == "byte.dec" then
+      match tok? a with | some b => showRes showNats (decodeBytes cfg.byte cfg.byteConv b) | none => "bad-op"
+    else if op == "b64.dec" then
+      match tok? a with | some b => showRes showX (b64Decode b) | none => "bad-op"
+    else if op == "b64.rt" then
+      match xbytes? a with
+      | some b => let e := b64Encode b; s!"enc={showTok e} dec={showRes showX (b64Decode e)}"
+      | none => "bad-op"
+    else if op == "dur.rt" then
+      match a.toInt? with
+      | some d => if inI64 d then let e := encodeDur d; s!"enc={showTok e} dec={showRes showInt (decodeDur cfg.dur e)}" else "bad-op"
+      | none => "bad-op"
+    else if op == "byte.rt" then
+      match parseNatList a with
+      | some l => if l.all (· < 256) then let e := encodeBytes l; s!"enc={showTok e} dec={showRes showNats (decodeBytes cfg.byte cfg.byteConv e)}" else "bad-op"
+      | none => "bad-op"
+    else if op == "u64.rt" then
+      match a.toNat? with
+      | some v => if v < 2 ^ 64 then let e := encodeNat v; s!"enc={showTok e} dec={showRes showInt (decodeInt cfg.u64 e)}" else "bad-op"
+      | none => "bad-op"
+    else
+      match op.splitOn "." with
+      | [ty, "dec"] =>
+        match wrapOf ty, tok? a with
+        | some w, some b => showRes showInt (decodeInt w b)
+        | _, _ => "bad-op"
+      | [ty, "rt"] =>
+        match wrapOf ty, a.toInt? with
+        | some w, some v => if inI64 v then let e := encodeInt v; s!"enc={showTok e} dec={showRes showInt (decodeInt w e)}" else "bad-op"
+        | _, _ => "bad-op"
+      | _ => "bad-op"
+  | ["hex.dec", base, sg, a] =>
+    match base.toNat?, tok? a with
+    | some bs, some b =>
+      if bs ≠ 16 ∧ bs ≠ 32 then "bad-op"
+      else if sg == "s" then showRes showInt (parseInt bs 64 b)
+      else if sg == "u" then showRes toString (parseUint bs 64 b)
+      else "bad-op"
+    | _, _ => "bad-op"
+  | ["hex.rt", base, sg, a] =>
+    match base.toNat? with
+    | some bs =>
+      if bs ≠ 16 ∧ bs ≠ 32 then "bad-op"
+      else if sg == "s" then
+        match a.toInt? with
+        | some v => if inI64 v then let e := fmtInt bs v; s!"enc={showTok e} dec={showRes showInt (parseInt bs 64 e)}" else "bad-op"
+        | none => "bad-op"
+      else if sg == "u" then
+        match a.toNat? with
+        | some v => if v < 2 ^ 64 then let e := fmtNat bs v; s!"enc={showTok e} dec={showRes toString (parseUint bs 64 e)}" else "bad-op"
+        | none => "bad-op"
+      else "bad-op"
+    | none => "bad-op"
+  | ["sql.scan", target, ty, v] =>
+    match sqlVal? ty v with
+    | some sv =>
+      if target == "nano" || target == "unix" then s!"ok {scanTs sv}"
+      else if target == "stamp" || target == "t2u" then s!"ok {scanStamp 7 sv}"
+      else "bad-op"
+    | none => "bad-op"
+  | ["sql.rt", target, v] =>
+    match v.toInt? with
+    | some x =>
+      if !inI64 x then "bad-op"
+      else if target == "nano" || target == "unix" then s!"val={x} scan=ok {scanTs (.i64 x)}"
+      else if target == "stamp" || target == "t2u" then s!"val={x} scan=ok {scanStamp 7 (.time x)}"
+      else "bad-op"
+    | none => "bad-op"
+  | _ => "bad-op"
+
+def main : IO Unit := oracleMain (fun (_ : Unit) l => ((), answer l)) ()
